@@ -276,7 +276,7 @@ class Agg(object):
 
 
 def run_batch(workload, jobs, workers, timeout, keep_digests=False,
-              job_timeout=600.0):
+              job_timeout=600.0, stop_on_violation=False):
     """Run workload.run_job(job) for every job, each in its own child forked
     from the pristine orchestrator, at most `workers` at a time (dynamic
     scheduling: results do not depend on the worker count).  run_job returns a
@@ -338,6 +338,8 @@ def run_batch(workload, jobs, workers, timeout, keep_digests=False,
             total.harness_errors.append("%r: %s" % (job, value))
 
     while pending or active:
+        if stop_on_violation and total.n_violations:
+            pending = []
         while pending and len(active) < workers:
             launch(pending.pop())
         ready, _, _ = select.select(list(active), [], [], 1.0)
